@@ -641,6 +641,11 @@ type histCase struct {
 
 func checkBlockHistory(c histCase) []vf.Finding {
 	last := c.Steps[len(c.Steps)-1].Op
+	// a final call that adds nothing (an empty Add, a stream of less than one word) may be a no-op: only a call
+	// that adds something is held to have brought the count up to date
+	if lb := len(c.Steps[len(c.Steps)-1].Bytes); last == "add" && lb == 0 || last == "addwords" && lb < 2 {
+		return nil
+	}
 	switch c.Block {
 	case "Data":
 		d := datablock.NewData()
@@ -735,7 +740,11 @@ func TestBlockHistories(t *testing.T) {
 			if i == n-1 {
 				ops = mut // the history ends in a call that is documented to set the count from the length
 			}
-			c.Steps = append(c.Steps, histStep{Op: rapid.SampledFrom(ops).Draw(t, "op"), Bytes: rapid.SliceOfN(rapid.Byte(), 0, 10).Draw(t, "bytes"), Word: rapid.Uint16().Draw(t, "word")})
+			minLen := 0
+			if i == n-1 {
+				minLen = 2 // the last call adds something
+			}
+			c.Steps = append(c.Steps, histStep{Op: rapid.SampledFrom(ops).Draw(t, "op"), Bytes: rapid.SliceOfN(rapid.Byte(), minLen, 10).Draw(t, "bytes"), Word: rapid.Uint16().Draw(t, "word")})
 		}
 		return c
 	}, func(c histCase) []vf.Finding {
